@@ -42,6 +42,7 @@ type universe struct {
 	Slots  []common.Hash
 	Txs    []common.Hash
 	BHash  common.Hash
+	Ripemd bool // Accts[0] is the address whose touch stays dirty across a revert on purpose (journal.dirty hack)
 }
 
 func newUniverse(r *rng.R) *universe {
@@ -52,6 +53,7 @@ func newUniverse(r *rng.R) *universe {
 	if r.Chance(0.3) {
 		// the address with the touch/dirty special case in the journal
 		u.Accts[0] = common.HexToAddress("0000000000000000000000000000000000000003")
+		u.Ripemd = true
 	}
 	for i := 0; i < nTokens; i++ {
 		u.Tokens = append(u.Tokens, common.BytesToAddress(r.Bytes(20)))
@@ -137,6 +139,7 @@ func bytesOf(s string) []byte {
 //   - Sub* never takes a (token) balance below zero (the account encoder rejects negative numbers),
 //   - SubRefund never exceeds the counter (documented panic),
 //   - RevertToSnapshot only names a snapshot that is still valid.
+//
 // snaps maps the program's snapshot serial to the id returned by Snapshot().
 func applyOp(st *state.StateDB, u *universe, o *op, snaps map[int]int) (root string, applied bool) {
 	var addr common.Address
@@ -274,17 +277,17 @@ func newBackend(mode int, dir, name string) (*backend, error) {
 }
 
 // replay executes ops (all on one state, no Copy) on a fresh backend and returns every root the
-// program computed (IntermediateRoot / Commit results, in order) and, for the flat in-memory mode, the
-// final content of the key-value store.
-func replay(mode int, dir, name string, u *universe, ops []op) (roots []string, dump map[string]string, skipped int, err error) {
+// program computed (IntermediateRoot / Commit results, in order), for the flat in-memory mode the
+// final content of the key-value store, and the final reading of all observables.
+func replay(mode int, dir, name string, u *universe, ops []op) (roots []string, dump map[string]string, final []string, skipped int, err error) {
 	be, err := newBackend(mode, dir, name)
 	if err != nil {
-		return nil, nil, 0, err
+		return nil, nil, nil, 0, err
 	}
 	defer be.close()
 	st, err := state.New(common.EmptyHash, be.db)
 	if err != nil {
-		return nil, nil, 0, err
+		return nil, nil, nil, 0, err
 	}
 	snaps := map[int]int{}
 	for i := range ops {
@@ -300,7 +303,7 @@ func replay(mode int, dir, name string, u *universe, ops []op) (roots []string, 
 	if mem, ok := be.raw.(*dbm.MemDB); ok && mode == modeKV {
 		dump = dumpMem(mem)
 	}
-	return roots, dump, skipped, nil
+	return roots, dump, observe(st, u), skipped, nil
 }
 
 func dumpMem(m *dbm.MemDB) map[string]string {
